@@ -98,6 +98,8 @@ pub struct World {
     pub ctx_ver: u64,
     pub collector_stop: bool,
     pub closure_hits: u64,
+    pub fill_cids: Vec<usize>,
+    pub drain_ring: usize,
 }
 
 impl World {
@@ -189,7 +191,25 @@ impl Reporter for SinkReporter {
 fn hook(site: fastrace::verif::Site) {
     use fastrace::verif::Site;
     let cur = VT.try_with(|v| v.borrow().clone()).ok().flatten();
-    let Some((case, id)) = cur else { return };
+    let Some((case, id)) = cur else {
+        // not a vthread (final cycles on the scheduler thread): log only
+        if let Some(case) = CURRENT.lock().unwrap_or_else(|e| e.into_inner()).clone() {
+            let mut w = case.w();
+            match site {
+                Site::BeforeDrain { ring } => w.drain_ring = ring,
+                Site::Received { kind, ids } => {
+                    if kind == "submit" && ids.len() == 1 && w.fill_cids.contains(&ids[0]) {
+                        return;
+                    }
+                    let t = w.tick();
+                    let ring = w.drain_ring;
+                    w.h.hooks.push(HookEv { t, vt: None, kind: HookKind::Received { kind, ids, ring } });
+                }
+                _ => {}
+            }
+        }
+        return;
+    };
     if let Site::BeforePush { free, .. } = site {
         LAST_FREE.with(|f| f.set(free));
     }
@@ -198,14 +218,24 @@ fn hook(site: fastrace::verif::Site) {
     }
     let (kind, yield_name) = match site {
         Site::Command { kind, ids, force } => (HookKind::Command { kind, ids, force }, None),
-        Site::BeforePush { free, pending } => (HookKind::BeforePush { free, pending }, Some("push")),
+        Site::BeforePush { free, pending, ring } => (HookKind::BeforePush { free, pending, ring }, Some("push")),
         Site::PushOutcome { ok } => (HookKind::PushOutcome { ok }, None),
-        Site::BeforeDrain => (HookKind::BeforeDrain, Some("drain")),
+        Site::BeforeDrain { ring } => (HookKind::BeforeDrain { ring }, Some("drain")),
         Site::RecvEmpty => (HookKind::RecvEmpty, Some("recv_empty")),
-        Site::Received { kind, ids } => (HookKind::Received { kind, ids }, None),
+        Site::Received { kind, ids } => (HookKind::Received { kind, ids, ring: 0 }, None),
     };
     {
         let mut w = case.w();
+        let mut kind = kind;
+        if let HookKind::BeforeDrain { ring } = &kind {
+            w.drain_ring = *ring;
+        }
+        if let HookKind::Received { kind: k, ids, ring } = &mut kind {
+            if *k == "submit" && ids.len() == 1 && w.fill_cids.contains(&ids[0]) {
+                return; // filler submits are not logged one by one
+            }
+            *ring = w.drain_ring;
+        }
         let t = w.tick();
         w.h.hooks.push(HookEv { t, vt: Some(id), kind });
     }
@@ -1728,6 +1758,12 @@ impl VtCtx {
         let Some(idx) = self.op_root(tid(1, 0xF111_0000 + u as u64, u), 0, true, 0, StrSeed { c: 0, l: 2 }, None, None) else {
             return;
         };
+        {
+            let mut w = self.w();
+            if let Some(c) = w.h.spans[idx].cid {
+                w.fill_cids.push(c);
+            }
+        }
         let Some(root) = self.w().spans[idx].take() else { return };
         let child = Span::enter_with_parent("fill-child", &root);
         self.w().spans[idx] = Slot::Live(root);
@@ -2008,6 +2044,8 @@ pub fn run_case(prog: &Program, opts: &ExecOpts) -> Hist {
         ctx_ver: 0,
         collector_stop: false,
         closure_hits: 0,
+        fill_cids: vec![],
+        drain_ring: 0,
     };
     let case = Arc::new(Case {
         prog: prog.clone(),
